@@ -74,6 +74,26 @@ Proof. exact arrow_frame_from_source. Qed.
 Theorem C02_frame_import_positions_from_source : forall v, asserted_fields v = written_fields v.
 Proof. exact (fun v => proj1 (arrow_frame_from_agrees_with_data_type v)). Qed.
 
+From Peppi Require Import Gen.SlppWriteSrc Gen.SlppReadSrc Gen.SlppOptsSrc Proofs.SlppWriteLayout Proofs.SlppReadLayout Proofs.SlppOptsLayout.
+(* ---- the CONTENT of every archive entry and the assembly of the game after the reader's loop, regenerated (Gen/SlppWriteSrc.v,
+   Gen/SlppReadSrc.v, Gen/SlppOptsSrc.v): peppi.json from (CURRENT_VERSION, the game's hash, the game's quirks), metadata.json from the
+   metadata option AS IS, start/end JSON and raw blocks from the records, the frames from into_struct_array under the caller's
+   compression (none when no options are given); on the way back peppi / start / frames are required, end / metadata / gecko optional,
+   hash and quirks come from peppi.json.  The model writer and reader ARE the table-driven ones ---- *)
+Theorem C02_slpp_writer_from_source : forall enc_peppi enc_meta enc_start enc_end enc_frames o g,
+  slpp_write enc_peppi enc_meta enc_start enc_end enc_frames (comp_of_opts o) g =
+  slpp_write_tbl enc_peppi enc_meta enc_start enc_end enc_frames o g.
+Proof. exact slpp_write_from_source. Qed.
+Theorem C02_slpp_reader_assembly_from_source : forall dec_peppi dec_meta dec_frames skip es,
+  slpp_read dec_peppi dec_meta dec_frames skip es =
+  (a <- read_entries dec_peppi dec_meta dec_frames skip es racc0 ;; assemble_tbl a).
+Proof. exact slpp_read_from_source. Qed.
+Theorem C02_option_defaults_from_source :
+  (ser_comp None = Some CNone /\ ser_comp (Some slpp_ser_opts_default) = ser_comp None) /\
+  (de_skip None = Some false /\ de_skip (Some slpp_de_opts_default) = de_skip None).
+Proof. exact (conj (conj (proj1 ser_none_from_source) (proj1 (proj2 ser_none_from_source)))
+                   (conj (proj1 de_none_from_source) (proj1 (proj2 de_none_from_source)))). Qed.
+
 Print Assumptions C02_roundtrip.
 Print Assumptions C02_full_chain.
 Print Assumptions C02_write_refuses_only_new_versions.
@@ -83,3 +103,6 @@ Print Assumptions C02_gecko_prefix_from_source.
 Print Assumptions C02_metadata_arms_from_source.
 Print Assumptions C02_frame_export_from_source.
 Print Assumptions C02_frame_import_positions_from_source.
+Print Assumptions C02_slpp_writer_from_source.
+Print Assumptions C02_slpp_reader_assembly_from_source.
+Print Assumptions C02_option_defaults_from_source.
